@@ -587,14 +587,14 @@ def selftest():
 
 
 SUBCHECKS = [
-    Subcheck("forward", forward_cases, check_forward, classify_forward, quick=600, thorough=40000,
+    Subcheck("forward", forward_cases, check_forward, classify_forward, quick=1800, thorough=40000,
              journal=False),
-    Subcheck("inverse_find", invfind_cases, check_invfind, classify_inv, quick=300, thorough=20000,
+    Subcheck("inverse_find", invfind_cases, check_invfind, classify_inv, quick=900, thorough=20000,
              journal=False),
-    Subcheck("inverse_poly", invpoly_cases, check_invpoly, classify_invpoly, quick=300, thorough=20000,
+    Subcheck("inverse_poly", invpoly_cases, check_invpoly, classify_invpoly, quick=900, thorough=20000,
              journal=False),
-    Subcheck("jacobian", jacobian_cases, check_jacobian, classify_jac, quick=300, thorough=20000,
+    Subcheck("jacobian", jacobian_cases, check_jacobian, classify_jac, quick=900, thorough=20000,
              journal=False),
-    Subcheck("history", history_cases, check_history, classify_history, quick=200, thorough=15000,
+    Subcheck("history", history_cases, check_history, classify_history, quick=600, thorough=15000,
              journal=False),
 ]
